@@ -429,6 +429,21 @@ pub fn order_family(tier: Tier) -> Vec<(Sc, Vec<Bounds>)> {
 			}
 		}
 	}
+	// long queues: far more controls pending at one priority than any fixed-size buffer an
+	// implementation might use (one burst, default schedule): with and without an armed
+	// grace timer holding the normal ones back; every one runs exactly once, in order
+	for pre in [vec![Op::Start], vec![Op::Start, Op::GStop]] {
+		for (body, n) in [(Op::Run, 1100usize), (Op::RunH, 1100)] {
+			let mut script: Vec<(Op, u8)> = pre.iter().map(|o| (*o, 0)).collect();
+			script.extend(std::iter::repeat((body, 0)).take(n));
+			script.push((Op::RunU, 0));
+			script.push((Op::Run, 0));
+			let mut sc = Sc::base(script, React::Ignore, 2);
+			sc.probes = true;
+			sc.burst = true;
+			out.push((sc, vec![Bounds::k(0, Policy::Fifo)]));
+		}
+	}
 	out
 }
 
